@@ -5,8 +5,8 @@ import CedarModel.Dispatch
 /-! Tie (T) for decision code: the hand-written model functions `negotiateCore` (C10, C03) and
     `levelOK` (C05) are proved equal — for ALL level strings, the four standard ones, the empty
     string of an unset field, and anything a peer may send — to the definitions that `tools/gen`
-    (trans.go) translates statement by statement from `security.negotiateSecurity` and
-    `server.commandLevelSatisfied` on every run. -/
+    (trans.go) translates statement by statement from `security.negotiateSecurity`,
+    `server.commandLevelSatisfied` and `server.sessionSatisfies` on every run. -/
 
 namespace Cedar.Tie
 open CedarGen
@@ -70,5 +70,26 @@ theorem levelOK_eq_gen (p : Policy) (authenticated encrypted : Bool) :
   simp only [lvlRequired, security.SecurityRequired, beq_str, eq_req]
   generalize cls p.auth = a; generalize cls p.enc = b; generalize cls p.integ = c
   cases a <;> cases b <;> cases c <;> cases authenticated <;> cases encrypted <;> rfl
+
+open Cedar.Disp in
+/-- `Server.satisfies` (the model of `server.sessionSatisfies` for a session that exists) is the
+    translated code: pass iff the generated function returns nil.  `authorizedNow` is the verdict of
+    `s.authorized`, which the code consults only when an Authorizer is configured. -/
+theorem satisfies_eq_gen (s : Server) (cmd : Nat) (sess : Sess) (authorizedNow : Bool)
+    (hA : ∀ a, s.authorizer = some a → authorizedNow = s.authorizedFor cmd sess.user) :
+    s.satisfies cmd sess =
+      ((Decisions.sessionSatisfies false (levelOK (s.policyFor cmd) sess.authenticated sess.encrypted)
+          s.authorizer.isSome authorizedNow).ret == 0) := by
+  unfold Server.satisfies Decisions.sessionSatisfies
+  generalize levelOK (s.policyFor cmd) sess.authenticated sess.encrypted = l
+  cases hs : s.authorizer with
+  | none =>
+    have : s.authorizedFor cmd sess.user = true := by unfold Server.authorizedFor; rw [hs]
+    rw [this]; cases l <;> cases authorizedNow <;> rfl
+  | some a =>
+    rw [← hA a hs]; cases l <;> cases authorizedNow <;> rfl
+
+theorem nil_session_refused_gen (l h a : Bool) : (Decisions.sessionSatisfies true l h a).ret = 1 := by
+  cases l <;> cases h <;> cases a <;> rfl
 
 end Cedar.Tie
